@@ -14,6 +14,7 @@ from vf import REPO, REPO_SRC, VERIF_DIR, ensure_deps
 
 NWORKERS = int(os.environ.get("VERIF_WORKERS", "16"))
 MAX_VIOL_PER_WORKER = 12
+SIG_CAP = 600000  # per worker: beyond this, distinct_nontrivial becomes a measured LOWER bound
 WORKDIR = os.path.join(VERIF_DIR, ".work")
 EVIDENCE_DIR = os.path.join(VERIF_DIR, "evidence")
 REPLAY_DIR = os.path.join(VERIF_DIR, "replays")
@@ -45,6 +46,8 @@ class Ctx:
         self.rng = random.Random(seed * 1000003 + worker * 7919 + sig64(prop) % 1000)
         self.evaluations = 0
         self.sigs = set()
+        self.nontrivial = 0
+        self.sig_capped = False
         self.counters = {}
         self.samples = []
         self.violations = []
@@ -69,7 +72,11 @@ class Ctx:
     def case(self, sig, nontrivial=True, n=1):
         self.evaluations += n
         if nontrivial:
-            self.sigs.add(sig64(sig))
+            self.nontrivial += 1
+            if len(self.sigs) < SIG_CAP:
+                self.sigs.add(sig64(sig))
+            else:
+                self.sig_capped = True
 
     def hit(self, key, n=1):
         self.counters[key] = self.counters.get(key, 0) + n
@@ -156,13 +163,20 @@ def worker_main(prop, tier, seed, worker, nworkers, out):
         "status": status,
         "error": err,
         "evaluations": ctx.evaluations,
-        "sigs": sorted(ctx.sigs),
+        "sigs": [],
+        "nsigs": len(ctx.sigs),
+        "nontrivial": ctx.nontrivial,
+        "sig_capped": ctx.sig_capped,
         "counters": ctx.counters,
         "samples": ctx.samples,
         "violations": ctx.violations,
         "notes": ctx.notes,
         "wall_s": round(time.time() - t0, 3),
     }
+    from array import array
+
+    with open(out + ".sigs", "wb") as f:
+        array("Q", sorted(ctx.sigs)).tofile(f)
     with open(out, "w", encoding="utf-8") as f:
         json.dump(res, f)
 
@@ -223,7 +237,16 @@ def drive(prop, tier, seed):
         logpath = logf.name
         if os.path.exists(out):
             with open(out, encoding="utf-8") as f:
-                results.append(json.load(f))
+                r_ = json.load(f)
+            if os.path.exists(out + ".sigs"):
+                from array import array
+
+                a_ = array("Q")
+                with open(out + ".sigs", "rb") as f:
+                    a_.frombytes(f.read())
+                r_["sigs"] = a_
+                os.remove(out + ".sigs")
+            results.append(r_)
             os.remove(out)
         else:
             tail = ""
@@ -271,9 +294,12 @@ def drive(prop, tier, seed):
             known_hit.setdefault(v["mechanism"], v)
 
     level = getattr(mod, "LEVEL", "exploration")
+    capped = any(r.get("sig_capped") for r in results)
     coverage = {
         "evaluations": evaluations,
         "distinct_nontrivial": len(sigs),
+        "nontrivial_cases": sum(r.get("nontrivial", 0) for r in results),
+        "distinct_nontrivial_is_lower_bound": capped,
         "rule": getattr(mod, "RULE", ""),
         "samples": samples[:6],
         "counters": dict(sorted(counters.items())),
